@@ -56,6 +56,12 @@ pub enum Target {
 }
 
 fn gen_item(t: &mut Tape, target: Target) -> String {
+    gen_item_with(t, target, true)
+}
+
+/// (`assoc_types`: a trait with associated types is accepted with delegation to `Self` only - the acceptance matrix uses traits
+/// without them, the relations use both)
+fn gen_item_with(t: &mut Tape, target: Target, assoc_types: bool) -> String {
     let cfg = FnGenCfg { allow_concrete: false, allow_no_deps: false, allow_leading_unsafe: true, rich_syntax: true, soup_bodies: false };
     match target {
         Target::Fn => {
@@ -73,7 +79,7 @@ fn gen_item(t: &mut Tape, target: Target) -> String {
                 ref_self_only: true,
                 patterns: true,
                 default_bodies: false,
-                assoc_types: false,
+                assoc_types,
                 other_items: false,
                 unsafety: false,
                 trait_attrs: true,
@@ -389,7 +395,7 @@ fn gen_matrix_case(t: &mut Tape) -> Option<MatrixCase> {
     if opt.starts_with("no_deps") && target == Target::Mod {
         return None;
     }
-    let item = gen_item(t, target);
+    let item = gen_item_with(t, target, false);
     let macro_name = e1::MACROS[t.weighted(&[6, 1, 1, 1])].to_string();
     let attr = match target {
         Target::Fn | Target::Mod => {
